@@ -171,4 +171,14 @@ impl<T> ArcSwapOption<T> {
         yield_point("slot.store");
         self.0.store(v)
     }
+
+    pub fn load_full(&self) -> Option<Arc<T>> {
+        yield_point("slot.load");
+        self.0.load_full()
+    }
+
+    pub fn swap(&self, v: Option<Arc<T>>) -> Option<Arc<T>> {
+        yield_point("slot.swap");
+        self.0.swap(v)
+    }
 }
